@@ -102,28 +102,40 @@ theorem current_model_path_independent :
 
 /-! ## `sv.cov = c` with the state expressed in another frame than the one the covariance was built in
 
-Counter-witness for the clause "QSW/TNW being defined by that inertial position and velocity" on covariances attached
-later (known finding C14-attach-stale-orb-frame; `BeyondVerif.C14.attach_reframed_local_partial` says what the code
-computes in general).  The covariance `C0` was built for the state `x0` in frame `false`; the same physical state,
-expressed in frame `true` (coordinates `conv false true · x0`), gets it attached: `Cov.orb` now holds coordinates of frame
-`true` while `_orb_frame` still says `false`. -/
+History.  Until /repo commit eca9727 the clause "QSW/TNW being defined by that inertial position and velocity" was FALSE of
+the code for covariances attached later (known finding C14-attach-stale-orb-frame, now fixed): `Cov.orb` held coordinates
+of the frame the state was expressed in at `sv.cov = c` while `_orb_frame` still named the construction frame.  The model of
+the code (`attach`) follows the repaired setter and `BeyondVerif.C14.attach_path_independent` is proved in full; the former
+counter-witness is restated about `attachOld` — the model of the setter *as it was* — so that what the oracle family
+`attached-later:reframed-state:local-target` would report if the defect returned stays documented and kernel-checked.
+The covariance `C0` was built for the state `x0` in frame `false`; the same physical state, expressed in frame `true`
+(coordinates `conv false true · x0`), gets it attached. -/
 
+def attachedReframedOld : St Bool M2 (Int × Int) := attachOld start true ((conv false true).apply x0)
 def attachedReframed : St Bool M2 (Int × Int) := attach start true ((conv false true).apply x0)
 
-/-- **The code as it is gives the wrong QSW/TNW covariance after such an attachment** (`diag(1, 2)` where the axes of
-the state require `diag(2, 1)`), although every regular target is right, a `Cov.copy()` of the object converts correctly
-(so `copy` is not transparent here), and the patched setter (`attachFix`) is right for every target. -/
-theorem attached_reframed_local_differs :
-    (run W attachedReframed [.loc .qsw]).mat = ⟨1, 0, 0, 2⟩ ∧ (run W start [.loc .qsw]).mat = ⟨2, 0, 0, 1⟩ ∧
-    (run W attachedReframed [.loc .tnw]).mat ≠ (run W start [.loc .tnw]).mat ∧
-    attachedReframed.orbFrame = false ∧ attachedReframed.orbCur = true ∧ attachedReframed.orb = (0, -1) ∧
+/-- **The old setter (before eca9727) gave the wrong QSW/TNW covariance after such an attachment** (`diag(1, 2)` where
+the axes of the state require `diag(2, 1)`), although every regular target was right and a `Cov.copy()` of the object
+converted correctly. -/
+theorem old_attach_reframed_local_differs :
+    (run W attachedReframedOld [.loc .qsw]).mat = ⟨1, 0, 0, 2⟩ ∧ (run W start [.loc .qsw]).mat = ⟨2, 0, 0, 1⟩ ∧
+    (run W attachedReframedOld [.loc .tnw]).mat ≠ (run W start [.loc .tnw]).mat ∧
+    attachedReframedOld.orbFrame = false ∧ attachedReframedOld.orbCur = true ∧ attachedReframedOld.orb = (0, -1) ∧
+    (run W attachedReframedOld [.frame true]).mat = (run W start [.frame true]).mat ∧
+    (run W attachedReframedOld [.loc .qsw, .frame false]).mat = C0 ∧
+    (run W (copy attachedReframedOld) [.loc .qsw]).mat = (run W start [.loc .qsw]).mat := by decide
+
+/-- **The model of the current code is right on the same inputs**, for every kind of target, and differs from the old
+setter exactly on the local targets. -/
+theorem current_attach_path_independent :
+    (run W attachedReframed [.loc .qsw]).mat = (run W start [.loc .qsw]).mat ∧
+    (run W attachedReframed [.loc .tnw]).mat = (run W start [.loc .tnw]).mat ∧
     (run W attachedReframed [.frame true]).mat = (run W start [.frame true]).mat ∧
     (run W attachedReframed [.loc .qsw, .frame false]).mat = C0 ∧
-    (run W (copy attachedReframed) [.loc .qsw]).mat = (run W start [.loc .qsw]).mat ∧
-    (run W (attachFix start true ((conv false true).apply x0)) [.loc .qsw]).mat = (run W start [.loc .qsw]).mat ∧
-    (run W (attachFix start true ((conv false true).apply x0)) [.loc .tnw]).mat = (run W start [.loc .tnw]).mat ∧
-    (run W (attachFix start true ((conv false true).apply x0)) [.frame true]).mat = (run W start [.frame true]).mat ∧
-    (run W (attachFix start true ((conv false true).apply x0)) [.loc .qsw, .frame false]).mat = C0 := by decide
+    attachedReframed.orbFrame = true ∧ attachedReframed.orbCur = true ∧
+    (copy attachedReframed).orbFrame = attachedReframed.orbFrame ∧ (run W (copy attachedReframed) [.loc .tnw]).mat = (run W start [.loc .tnw]).mat ∧
+    (run W attachedReframed [.loc .qsw]).mat ≠ (run W attachedReframedOld [.loc .qsw]).mat ∧
+    (run W attachedReframed [.frame true]).mat = (run W attachedReframedOld [.frame true]).mat := by decide
 
 /-- attached in the frame it was built in, nothing changes -/
 theorem attached_home_same : attach start false x0 = start := rfl
